@@ -111,6 +111,14 @@ private:
         }
     }
 
+    // Colours outside the sRGB gamut, and in-gamut colours that leave it by rounding
+    // (dark saturated blues coming back from lab), give components outside [0, 1].
+    BOOST_FORCEINLINE
+    float32_t clamp( float32_t sample ) const
+    {
+        return sample < 0.f ? float32_t( 0.f ) : ( sample > 1.f ? float32_t( 1.f ) : sample );
+    }
+
 public:
     template <typename P1, typename P2>
     void operator()( const P1& src, P2& dst) const
@@ -125,21 +133,21 @@ public:
 
         get_color(dst,red_t())  =
                 channel_convert<typename color_element_type<P2, red_t>::type>(
-                    companding( x *  3.2404542f +
+                    clamp( companding( x *  3.2404542f +
                                 y * -1.5371385f +
-                                z * -0.4985314f )
+                                z * -0.4985314f ) )
                     );
         get_color(dst,green_t()) =
                 channel_convert<typename color_element_type<P2, green_t>::type>(
-                    companding( x * -0.9692660f +
+                    clamp( companding( x * -0.9692660f +
                                 y *  1.8760108f +
-                                z *  0.0415560f )
+                                z *  0.0415560f ) )
                     );
         get_color(dst,blue_t()) =
                 channel_convert<typename color_element_type<P2, blue_t>::type>(
-                    companding( x *  0.0556434f +
+                    clamp( companding( x *  0.0556434f +
                                 y * -0.2040259f +
-                                z *  1.0572252f )
+                                z *  1.0572252f ) )
                     );
     }
 };
